@@ -24,7 +24,7 @@ def harness_functions(path):
 
 def run_one(path, name, line, timeout_s):
     env = dict(os.environ)
-    env['PYTHONPATH'] = '/repo/src:' + VERIF
+    env['PYTHONPATH'] = driver.REPO_SRC + ':' + VERIF
     env['PYTHONHASHSEED'] = '0'
     cmd = [PY, '-m', 'crosshair', 'check', '--report_all', '--per_condition_timeout', str(timeout_s), f'{path}:{line}']
     t0 = time.time()
